@@ -1,6 +1,11 @@
 package netceptor
 
 import (
+	"context"
+	"io"
+	"net"
+	"time"
+
 	"github.com/ansible/receptor/internal/verifapi"
 )
 
@@ -218,4 +223,80 @@ func Verif_C02_codec_two_flows() {
 	w2b, _ := s.translateDataFromMessage(m2)
 	b2b, e3 := s.translateDataToMessage(w2b)
 	verifapi.Assert("re-encoding-intact", e3 == nil && verifSameMsg(m2, b2b))
+}
+
+// verifChunkConn is a net.Conn whose Read hands out a fixed stream in chunks of the harness's choosing;
+// a chunk may come together with a deadline error (the io.Reader contract allows n > 0 with an error),
+// and reads between chunks may time out with nothing.
+type verifChunkConn struct {
+	chunks  [][]byte
+	timeout []bool // chunk i is reported together with a deadline error
+	idle    []bool // an empty read that times out precedes chunk i
+	pos     int
+	idled   bool
+}
+
+type verifTimeoutErr struct{}
+
+func (verifTimeoutErr) Error() string   { return "i/o timeout" }
+func (verifTimeoutErr) Timeout() bool   { return true }
+func (verifTimeoutErr) Temporary() bool { return true }
+
+func (c *verifChunkConn) Read(p []byte) (int, error) {
+	if c.pos >= len(c.chunks) {
+		return 0, io.EOF
+	}
+	if c.idle[c.pos] && !c.idled {
+		c.idled = true
+		return 0, verifTimeoutErr{}
+	}
+	c.idled = false
+	n := copy(p, c.chunks[c.pos])
+	var err error
+	if c.timeout[c.pos] {
+		err = verifTimeoutErr{}
+	}
+	c.pos++
+	return n, err
+}
+func (c *verifChunkConn) Write(p []byte) (int, error)        { return len(p), nil }
+func (c *verifChunkConn) Close() error                       { return nil }
+func (c *verifChunkConn) LocalAddr() net.Addr                { return Addr{} }
+func (c *verifChunkConn) RemoteAddr() net.Addr               { return Addr{} }
+func (c *verifChunkConn) SetDeadline(t time.Time) error      { return nil }
+func (c *verifChunkConn) SetReadDeadline(t time.Time) error  { return nil }
+func (c *verifChunkConn) SetWriteDeadline(t time.Time) error { return nil }
+
+// Verif_C02_external_backend_stream: two framed datagrams (arbitrary payloads of 0..2 bytes) arrive on
+// an external-backend connection as one byte stream cut into chunks at every possible pair of places;
+// any chunk may be delivered together with a deadline error, and empty timed-out reads may come in
+// between. Whatever the receive loop is told, the two datagrams come out intact, in order, once each.
+func Verif_C02_external_backend_stream() {
+	a, b := verifapi.BytesUpTo(2), verifapi.BytesUpTo(2)
+	tx := MessageConnFromNetConn(&verifChunkConn{}).(*netMessageConn)
+	stream := append(append([]byte{}, tx.framer.SendData(a)...), tx.framer.SendData(b)...)
+	c1 := verifapi.Choose(len(stream) + 1)
+	c2 := c1 + verifapi.Choose(len(stream)-c1+1)
+	conn := &verifChunkConn{}
+	for _, ch := range [][]byte{stream[:c1], stream[c1:c2], stream[c2:]} {
+		if len(ch) > 0 {
+			conn.chunks = append(conn.chunks, ch)
+			conn.timeout = append(conn.timeout, verifapi.Bool())
+			conn.idle = append(conn.idle, verifapi.Bool())
+		}
+	}
+	mc := MessageConnFromNetConn(conn)
+	var got [][]byte
+	for i := 0; i < 12 && len(got) < 2; i++ {
+		m, err := mc.ReadMessage(context.Background(), time.Second)
+		if err == nil {
+			got = append(got, m)
+		} else if err != ErrTimeout {
+			break
+		}
+	}
+	verifapi.Cover("stream-consumed")
+	verifapi.Assert("both-datagrams-received", len(got) == 2)
+	verifapi.Assert("first-datagram-intact", verifapi.SameBytes(got[0], a))
+	verifapi.Assert("second-datagram-intact", verifapi.SameBytes(got[1], b))
 }
